@@ -334,3 +334,23 @@ def volume_ok(s0: str, s1: str, s2: str, s3: str, s4: str, s5: str, s6: str, s7:
         got = attrs.get(name)
         ok = ok & ((got is val) or (got == val))
     return ok & (attrs.get("creation_datetime") == "2020-02-29T12:34:56.780000")
+
+
+def volume_inner_ok(a: str, b: str, gap: int, which: int, fp: bool) -> bool:
+    """
+    pre: len(a) == 1 and len(b) == 1 and a != " " and b != " " and 0 <= gap <= 3 and 0 <= which < 14
+    post: _
+    """
+    # a value with a run of 0..3 blanks INSIDE (what is left after the adapter stripped the padding) surfaces unchanged, in every field
+    from vlib import plumbspec as PS
+
+    val = a + " " * gap + b
+    base = _VOL_DOCS[1 if fp else 0]
+    with PS.no_tracing():
+        doc = {k: (dict(v) if isinstance(v, dict) else v) for k, v in base.items()}
+    name, rec, field = VOL_MAP[which]
+    doc[rec][field] = val
+    attrs = PS.variants()["volume.fp3"]["transform"](doc).attrs
+    got = attrs.get(name)
+    return (got is val) or (got == val)
+
